@@ -33,6 +33,20 @@ def idle_cases():
     return out
 
 
+PARENT_ARM = {'file': 'thread.py', 'func': 'terminate', 'line_text': 'if timeout < 0:'}
+
+
+def preempted_parent_scenarios():
+    """The caller of terminate() is preempted (sleeps) at each line of its own call: everything else gets time to run."""
+    out = []
+    out.append({'kind': 'T', 'target': 't_spin', 'phase': 'parent-preempted/busy', 'parent_arm': PARENT_ARM, 'observe': 'terminate', 'timeout': 5})
+    out.append({'kind': 'PT', 'target': 'p_echo', 'inputs': [], 'close': False, 'idle_terminate': True, 'phase': 'parent-preempted/idle',
+                'parent_arm': PARENT_ARM, 'timeout': 5})
+    out.append({'kind': 'PT', 'target': 'p_echo', 'inputs': [1], 'close': False, 'idle_terminate': True, 'phase': 'parent-preempted/idle-after-one',
+                'parent_arm': PARENT_ARM, 'timeout': 5})
+    return out
+
+
 def own_outcomes(case):
     """The outcomes the target produces on its own: list of (has_error, result, error)."""
     t = case['target']
@@ -42,6 +56,8 @@ def own_outcomes(case):
         return [(True, None, {'exc': 'ValueError', 'args': ['a', 1]})]
     if t == 'p_echo':
         return [(False, n, None) for n in range(len(case.get('inputs', [])) + 1)]
+    if t == 't_spin':
+        return []
     return []
 
 
@@ -54,6 +70,8 @@ def judge(case, obs, site):
     if obs.get('not_reached'):
         return ('beyond-end', None)     # this run's path ended before event k (paths differ by a line or two between runs)
     tr = (obs.get('terminate_ret') or [None])[0]
+    if case.get('parent_arm') and case.get('observe') == 'terminate':
+        tr = obs.get('death')            # death is observed through the preempted terminate() call itself
     if tr is not True:
         return ('terminate-returned-%s' % tr, None)
     rounds = obs.get('rounds') or []
@@ -96,6 +114,12 @@ def run(ctx):
     scs = scenarios(ctx.quick)
     bases, runs = land.sweep(scs, ['terminate'], full=full)
     runs += land.run_cases(idle_cases())
+    # parent-side preemption points of ThreadWorker.terminate (the only terminate that raises and releases from the caller's thread)
+    pb, pr = land.sweep(preempted_parent_scenarios(), lambda s_: ['sleep'], full=True)
+    for b in pb:
+        if not b.get('events_total'):
+            ctx.selftest_fail('no preemption point recorded in the parent terminate() call')
+    runs += pr
     nbad_harness = 0
     uncovered = {}
     for b, s in zip(bases, scs):
